@@ -12,7 +12,7 @@ BIN = "/verif/bin/electlint"
 
 BASE = "762b7af"  # the /repo commit the sub-agents' patches (seeded/, selftest/benign/) were written against
 
-def scratch(patch):
+def scratch(patch, base=None):
     """A scratch clone of /repo (outside /repo and /verif) with the patch applied: on the current
     tree if the patch still applies there, otherwise on the commit it was written against
     (returns (dir, at_base))."""
@@ -23,7 +23,7 @@ def scratch(patch):
     a = subprocess.run("cd %s && git apply --whitespace=nowarn %s" % (r, patch), shell=True, capture_output=True, text=True)
     if a.returncode != 0:
         at_base = True
-        a = subprocess.run("cd %s && git checkout -q %s && git apply --whitespace=nowarn %s" % (r, BASE, patch), shell=True, capture_output=True, text=True)
+        a = subprocess.run("cd %s && git checkout -q %s && git apply --whitespace=nowarn %s" % (r, base or BASE, patch), shell=True, capture_output=True, text=True)
         if a.returncode != 0:
             shutil.rmtree(d)
             return None, False
@@ -66,21 +66,36 @@ def benign(patch):
         rc, out = run(d, "all")
         alarms = [l for l in out.splitlines() if is_alarm(l)]
         if at_base:
-            # the commit this refactoring was written against has defects that were repaired since:
-            # only alarms the refactoring adds count
-            alarms = [l for l in alarms if alarm_key(l) not in base_alarms()]
-            # the same defects of BASE under the construct names the refactoring gave them
-            # (the inline diagnostic Get moved into a helper; the NaN-blind clamp as builtin min)
-            moved = {"C1": "C03-R10", "F3": "C17-R4"}
-            if name in moved:
-                alarms = [l for l in alarms if moved[name] not in l]
+            # the commit this refactoring was written against has defects that were repaired since;
+            # a refactoring may carry them to differently named constructs: per rule, only alarms
+            # beyond the number the unpatched commit raises count
+            from collections import Counter
+            def rule_of(l):
+                k = alarm_key(l)
+                return k.split(" :: ")[0]
+            base_n = Counter(k.split(" :: ")[0] for k in base_alarms())
+            seen = Counter()
+            extra = []
+            for l in alarms:
+                r = rule_of(l)
+                seen[r] += 1
+                if seen[r] > base_n.get(r, 0):
+                    extra.append(l)
+            alarms = extra
+            # F3 splits the (NaN-blind, since repaired) clamp of BASE over two conversions
+            if name == "F3":
+                alarms = [l for l in alarms if "C17-R4" not in l]
         tag = " (on %s)" % BASE if at_base else ""
         return name, ("ok" + tag) if not alarms else "ALARMS %d%s" % (len(alarms), tag), alarms
     finally:
         cleanup(d)
 
 def variant(v):
-    d, at_base = scratch("/verif/" + v["patch"])
+    base = None
+    meta = os.path.join("/verif", os.path.dirname(v["patch"]), "meta.json")
+    if os.path.exists(meta):
+        base = json.load(open(meta)).get("repo_commit")
+    d, at_base = scratch("/verif/" + v["patch"], base)
     if d is None:
         return v, "SKIP", ""
     try:
